@@ -3,7 +3,7 @@ use crate::rng::Rng;
 use crate::universe::*;
 
 #[derive(Clone, Copy, PartialEq, Eq, Debug)]
-pub enum Kind { General, Soft, ConflictFree, Hints, Tight, Lazy, CycleMerge, SoftBackjump, LazyUnsat }
+pub enum Kind { General, Soft, ConflictFree, Hints, Tight, Lazy, CycleMerge, SoftBackjump, LazyUnsat, FalseThenTrue }
 
 pub struct Generated { pub u: Universe, pub p: Problem }
 
@@ -183,8 +183,54 @@ pub fn generate_lazy_unsat(rng: &mut Rng) -> Generated {
     Generated { u, p }
 }
 
+/// A candidate whose dependencies are cheaply available (hinted, or cached by an earlier solve) is *false* when the
+/// first requirement that lists it is encoded and is selected later: the better versions of `a` need `q` and
+/// constrain `c` away from its best candidates, `q` needs `c`, the worst `a` needs `c` directly; the candidates of `c`
+/// have dependencies of their own (`d`), some of them impossible. `hinted`: `a` and `c` hint all their candidates, `q` does not.
+pub fn generate_false_then_true(rng: &mut Rng, hinted: bool) -> Generated {
+    let mut u = Universe::default();
+    let sizes = [rng.range(2, 3) as usize, rng.range(1, 2) as usize, rng.range(2, 3) as usize, rng.range(1, 2) as usize];
+    let mut next_s = 0u32;
+    let mut cands: Vec<Vec<u32>> = Vec::new();
+    for sz in &sizes { cands.push((0..*sz).map(|_| { let s = next_s; next_s += 1; s }).collect()); }
+    let mut next_v = 0u32;
+    let mut any_vs = Vec::new();
+    let mut one_vs: Vec<Vec<u32>> = Vec::new();
+    for (n, cs) in cands.iter().enumerate() {
+        u.vsets.insert(next_v, VSet { name: n as u32, matching: cs.clone() }); any_vs.push(next_v); next_v += 1;
+        let mut ones = Vec::new();
+        for &c in cs { u.vsets.insert(next_v, VSet { name: n as u32, matching: vec![c] }); ones.push(next_v); next_v += 1; }
+        one_vs.push(ones);
+    }
+    // c restricted to everything but its best candidate(s)
+    let c_low = next_v; { let cs = &cands[2]; let k = rng.range(1, cs.len() as u64 - 1) as usize; u.vsets.insert(next_v, VSet { name: 2, matching: cs[k..].to_vec() }); } next_v += 1;
+    let no_d = next_v; u.vsets.insert(next_v, VSet { name: 3, matching: vec![] }); next_v += 1;
+    // a version set of c that none of its candidates satisfies: a constrains on it forbids every c
+    let no_c = next_v; u.vsets.insert(next_v, VSet { name: 2, matching: vec![] });
+    for (n, cs) in cands.iter().enumerate() {
+        for (i, &c) in cs.iter().enumerate() {
+            let last = i + 1 == cs.len();
+            let (reqs, cons): (Vec<Req>, Vec<u32>) = match n {
+                0 => if !last { (vec![Req::Single(any_vs[1])], vec![if rng.chance(2, 3) { no_c } else { c_low }]) } else { (vec![Req::Single(if rng.chance(2, 3) { any_vs[2] } else { one_vs[2][0] })], vec![]) },
+                1 => (vec![Req::Single(if rng.chance(2, 3) { any_vs[2] } else { one_vs[2][0] })], vec![]),
+                2 => (vec![Req::Single(if rng.chance(1, 4) { no_d } else { any_vs[3] })], vec![]),
+                _ => (vec![], vec![]),
+            };
+            u.solvs.insert(c, Solv { name: n as u32, rank: i as u32, deps: Deps::Known { reqs, cons } });
+        }
+        // `a` and `c` are cheaply available, `q` is not: the clauses of the better `a` exist before `q` reveals `c`
+        let hint = if hinted && (n == 0 || n == 2 || (n == 3 && rng.chance(1, 2))) { Hint::All } else { Hint::None };
+        u.pkgs.insert(n as u32, Pkg { cands: cs.clone(), hint, ..Default::default() });
+    }
+    let mut p = Problem::default();
+    p.reqs.push(Req::Single(any_vs[0]));
+    Generated { u, p }
+}
+
 pub fn generate_opts(rng: &mut Rng, kind: Kind, force_sparse: bool) -> Generated {
     if kind == Kind::CycleMerge { return generate_cycle_merge(rng); }
+    if kind == Kind::FalseThenTrue { let h = rng.chance(2, 3); return generate_false_then_true(rng, h); }
+    if kind == Kind::Hints && rng.chance(1, 8) { return generate_false_then_true(rng, true); }
     if kind == Kind::LazyUnsat || (kind == Kind::Lazy && rng.chance(1, 5)) { return generate_lazy_unsat(rng); }
     if kind == Kind::SoftBackjump || (kind == Kind::Soft && rng.chance(1, 6)) { return generate_soft_backjump(rng); }
     // the soft family alternates between general and tight (conflict-heavy) universes
